@@ -375,6 +375,24 @@ def sweep_cases(draw):
         elif alg == "cbldm" and draw(st.booleans()):
             c["opts"] = {"partition_difference": draw(st.integers(1, 3))}
         calls.append(c)
+    if alg in ("cg", "multifit", "cbldm", "dp") and draw(st.integers(0, 2)) == 0:
+        # an OPTIONS sweep instead: the parameter stays, explicit options alternate with the library's defaults - what options that leak
+        # into the defaults of later calls get wrong; complete greedy partly under a (deterministic) time limit, where the search order shows
+        for i, c in enumerate(calls):
+            c["param"] = calls[0]["param"]
+            c.pop("opts", None)
+            if i % 2 == 0:
+                if alg == "cg":
+                    c["opts"] = {"objective": draw(st.sampled_from(S.CG_OBJECTIVES)),
+                                 "switches": draw(st.sampled_from([[0, 0, 0, 0], [1, 0, 0, 0], [0, 0, 0, 1], [1, 1, 1, 1], [1, 0, 1, 0]]))}
+                elif alg == "multifit":
+                    c["opts"] = {"iterations": draw(st.sampled_from([0, 1, 2, 3]))}
+                elif alg == "cbldm":
+                    c["opts"] = {"partition_difference": draw(st.integers(1, 2))}
+                else:
+                    c["opts"] = {"objective": draw(S.objective_specs(c["param"]))}
+            if alg == "cg" and draw(st.booleans()):
+                c["ticks"] = draw(st.integers(3, 60))
     return {"kind": "history", "sweep": True, "inputs": [{"values": values, "pres": pres, "nseed": draw(st.integers(0, 5))}], "calls": calls}
 
 
